@@ -1,3 +1,6 @@
+#[cfg(feature = "verif-hooks")]
+use crate::verif_sync::{Arc, Condvar, Mutex};
+#[cfg(not(feature = "verif-hooks"))]
 use std::sync::{Arc, Condvar, Mutex};
 use tonic::{Code, Request, Response, Status};
 use triggered::Trigger;
